@@ -70,7 +70,7 @@ CHECKS = {
             'B(op); watchers with captured output and helper children (real pipes that stay open while a holder '
             'lives: a read on an empty held pipe is a stall), wall-clock steps at kernel-call boundaries, long '
             'histories of one repeated operation, n stubborn workers killed in parallel; real circusd histories '
-            'with a second client probing every 100 ms (incl. an idle on-demand watcher). A deterministic bad-release sub-plan (every later generation exits during its warm-up) and a LIVE case with an event subscriber that never reads while thousands of events are published.',
+            'with a second client probing every 100 ms (incl. an idle on-demand watcher). A LIVE case with a pre-forking worker (24-32 children): stats from one client, status from a second 50 ms later, best of three attempts. A deterministic bad-release sub-plan (every later generation exits during its warm-up) and a LIVE case with an event subscriber that never reads while thousands of events are published.',
             'Virtual time: a wait that cannot end is decidable because nothing else can run; hooks never sleep here.'),
     'C10': ('SIM', 'exploration',
             'runtime monitoring: second request injected at every selector poll of the first; differential no-effect '
@@ -120,7 +120,7 @@ CHECKS = {
             'runtime monitoring: kernel spawn ledger with exact virtual timestamps checked for non-interleaving, '
             'priority order and warmup pacing',
             'Random watcher sets with priority ties, numprocesses 0-3, warmups and autostart flags; daemon start, '
-            'start/restart of all, by glob and by regex; deaths injected during the sequence; starts that fail '
+            'start/restart of all, by glob and by regex, arbiter-wide reload without the graceful mode; deaths injected during the sequence; starts that fail '
             'half-way (hook refusing the n-th spawn, after_start false); restart/start requests fired at a '
             'periodic check that is respawning the watcher; watchers removed/added at run time before the group '
             'operation; 130-process watchers; wall-clock steps during the sequence. LIVE: the daemon start of a real circusd (its own loop): autostart = False watchers stay stopped, negative priorities come last, priority order judged where the earlier watcher pauses 1 s per spawn. SIM: the start order of several on-demand watchers behind one real socket.',
